@@ -9,6 +9,9 @@
     dec <variant> <verify 0|1> <hex frame>                            -> ok <hex> | <error tag>
     rcv <variant> <bridge> <7 hdr fields> <flags> <hex;hex;…>         -> none | ok <hex> | <error tag>
     cls <variant> <bridge> <7 hdr fields> <flags> <hex frame>         -> ack | hit <hex> | noise | err <error tag>
+    rtx <variant> <bridge> <7 hdr fields> <flags> <budget> <att|att|…> -> sends=<n> none | ok <hex> | <error tag>
+         (retransmissions: att = the frames hex;hex;… (or -) that arrive after one transmission before the read
+          times out; budget = max_retries + 1)
          variant = a (as shipped: command byte only) | r (repaired: netFn + command, verified, only when bridged)
          bridge  = - (request not bridged) | <seq> (sequence number of the outstanding Send Message)
   The ipmb-dev / Aardvark transports (Model/IpmbDevLoop.lean, the step models of C04; they do not bridge):
@@ -148,6 +151,15 @@ def handleC09 (line : String) : String :=
       | none => "none"
       | some o => showBytes9 o
     | _, _, _, _, _ => "bad-op"
+  | ["rtx", v, br, a, b, c, d, e, f, g, fl, budget, atts] =>
+    match parseVariant v, parseBridge br, parseHdr9 [a, b, c, d, e, f, g], parseFlags9 fl, budget.toNat?,
+        (atts.splitOn "|").mapM parseFrames with
+    | some v, some br, some h, some fl, some n, some atts =>
+      let o := match retryBridged v br h fl n atts with
+        | none => "none"
+        | some o => showBytes9 o
+      s!"sends={retryAttempts v br h fl n atts} {o}"
+    | _, _, _, _, _, _ => "bad-op"
   | ["cls", v, br, a, b, c, d, e, f, g, fl, hx] =>
     match parseVariant v, parseBridge br, parseHdr9 [a, b, c, d, e, f, g], parseFlags9 fl, ofHex hx with
     | some v, some br, some h, some fl, some fr => showClass (classifyRx v br h fl fr)
